@@ -3,8 +3,10 @@ package cmd
 import (
 	crand "crypto/rand"
 	"encoding/binary"
+	"errors"
 	"flag"
 	"io"
+	"math"
 	"math/rand"
 	"os"
 	"time"
@@ -57,6 +59,11 @@ func (c *GenerateCommand) Execute() error {
 }
 
 func (c *GenerateCommand) execute(tow io.Writer) (err error) {
+	if c.Fill && (c.RandMax < 0 || c.RandMax > math.MaxInt32) {
+		// rand.Intn panics unless its argument (max scaled by the
+		// archive's step, plus one) is positive.
+		return errors.New("max must be between 0 and 2147483647")
+	}
 	db, err := whispertool.Create(c.Dest, c.ArchiveInfoList, c.AggregationMethod, c.XFilesFactor)
 	if err != nil {
 		return err
